@@ -894,12 +894,18 @@ func (e *Env) call(x *SExpr) Val {
 				if a.sortIn(e.sorts()) == "Slice" {
 					ref = fmt.Sprintf("(s.arr %s)", a.T)
 				}
+				if a.sortIn(e.sorts()) == "Iface" {
+					ref = fmt.Sprintf("(i.val %s)", a.T)
+				}
 				return boolVal(fmt.Sprintf("(>= %s %s)", ref, fg.heap(e.oldOrCur(), "$alloc", "Int")))
 			case "allocated":
 				a := e.tr(x.Args[0])
 				ref := a.T
 				if a.sortIn(e.sorts()) == "Slice" {
 					ref = fmt.Sprintf("(s.arr %s)", a.T)
+				}
+				if a.sortIn(e.sorts()) == "Iface" {
+					ref = fmt.Sprintf("(i.val %s)", a.T)
 				}
 				return boolVal(fmt.Sprintf("(< %s %s)", ref, fg.heap(e.st, "$alloc", "Int")))
 			case "sameSlice":
